@@ -9,6 +9,7 @@ import (
 
 	"github.com/mycoria/mycoria/frame"
 	"github.com/mycoria/mycoria/m"
+	"github.com/mycoria/mycoria/mgr"
 	"github.com/mycoria/mycoria/state"
 
 	"verifharness/core"
@@ -42,6 +43,9 @@ type world struct {
 	trace   []string
 	names   map[string]string // frame key -> message name
 	nReq    [2]int
+	// cleanLeft: how many cleaner ticks (the once-a-minute housekeeping of the hello handler) may still be
+	// injected per side; 0 in the exhaustive spaces
+	cleanLeft [2]int
 }
 
 func (w *world) node(side int) *vmesh.Node {
@@ -100,6 +104,11 @@ func (w *world) actions(allowRetry bool) []action {
 			}
 		}
 	}
+	for s := 0; s < 2; s++ {
+		if w.cleanLeft[s] > 0 && w.ms.Pending() > 0 {
+			acts = append(acts, action{"clean", s})
+		}
+	}
 	return acts
 }
 
@@ -118,6 +127,13 @@ func (w *world) apply(act action) error {
 		w.trace = append(w.trace, "deliver-copy "+w.name(p))
 		cp := *p
 		w.ms.Deliver(&cp)
+	case "clean":
+		w.cleanLeft[act.idx]--
+		w.trace = append(w.trace, "cleaner-tick "+sideName(act.idx))
+		n := w.node(act.idx)
+		if err := n.Inst.RouterV.Manager().Do("verif hello clean", func(wc *mgr.WorkerCtx) error { return n.Inst.RouterV.HelloPing.Clean(wc) }); err != nil {
+			return err
+		}
 	case "retry":
 		w.retries[act.idx]--
 		w.trace = append(w.trace, "retry "+sideName(act.idx))
@@ -161,6 +177,8 @@ type setup struct {
 	// prior: 0 = the routers never talked; 1/2 = they completed a setup and exchanged traffic before, then A/B
 	// lost its keys (restart with the same identity) - the other side re-keys its used session in place.
 	prior int
+	// cleans: cleaner ticks that may be injected per side while messages are in flight
+	cleans int
 }
 
 func buildWorld(r *rand.Rand, s setup, retries int) (*world, error) {
@@ -192,6 +210,7 @@ func buildWorld(r *rand.Rand, s setup, retries int) (*world, error) {
 	}
 	w := &world{ms: ms, a: a, b: b, dupped: map[string]bool{}, names: map[string]string{}}
 	w.retries = [2]int{retries, retries}
+	w.cleanLeft = [2]int{s.cleans, s.cleans}
 	if s.prior > 0 {
 		if err := w.initiate(0); err != nil {
 			return nil, fmt.Errorf("prior setup: %w", err)
@@ -461,10 +480,17 @@ func run(c *core.Ctx) {
 			}
 		}
 	}
+	// with housekeeping ticks of the hello handler in between (seeded sampling; both initiate)
+	for _, swapped := range []bool{false, true} {
+		s := setup{relay: false, swapped: swapped, ids: ids, cleans: 1}
+		jobs = append(jobs, job{s, 2, 0, 0, c.Q(400, 8000)}, job{s, 3, 0, 0, c.Q(400, 8000)})
+	}
 	parallel(len(jobs), func(w int) {
 		j := jobs[w]
 		r := core.RNG(fmt.Sprintf("c14/job/%d", w))
-		dfs(res, r, j.s, j.initSet, j.retries, j.budget)
+		if j.budget > 0 {
+			dfs(res, r, j.s, j.initSet, j.retries, j.budget)
+		}
 		for i := 0; i < j.random; i++ {
 			runSchedule(res, r, j.s, j.initSet, j.retries, nil, true)
 		}
